@@ -4,8 +4,8 @@ package main
 
 import (
 	"fmt"
-	"os"
 	"go/types"
+	"os"
 	"strings"
 
 	"golang.org/x/tools/go/ssa"
@@ -802,9 +802,10 @@ func (x *Exec) jsonOK(v *Term) *Term {
 }
 
 // Trusted contract of encoding/json (assumption A5, J1-J3):
-//   Marshal(v) for JSONFaithful(v): no error, non-empty output whose first byte is not 'n';
-//   Unmarshal(Marshal(v), &t) for such v: no error and t = v;
-//   Unmarshal with an error may leave anything in its target; it never panics for a non-nil pointer target.
+//
+//	Marshal(v) for JSONFaithful(v): no error, non-empty output whose first byte is not 'n';
+//	Unmarshal(Marshal(v), &t) for such v: no error and t = v;
+//	Unmarshal with an error may leave anything in its target; it never panics for a non-nil pointer target.
 func (x *Exec) jsonMarshal(st *State, fn *ssa.Function, args []*Term) []Outcome {
 	c := x.c
 	x.noteTrusted("encoding/json: Marshal of a faithful non-null value succeeds with output not starting with 'n'; Unmarshal(Marshal(v)) = v; a failing Unmarshal may clobber only its target")
